@@ -73,15 +73,31 @@ def strip_comments(src):
     return src
 
 
-def grep_forbidden():
+def import_closure(roots):
+    """Project-local modules (Afkak*, Driver*) reachable from `roots` through `import` lines."""
+    seen, todo = set(), list(roots)
+    while todo:
+        m = todo.pop()
+        if m in seen:
+            continue
+        path = os.path.join(LEAN, *m.split(".")) + ".lean"
+        if not os.path.exists(path):
+            continue
+        seen.add(m)
+        for mm in re.finditer(r"^\s*(?:public\s+)?import\s+([\w.]+)", open(path).read(), re.M):
+            if mm.group(1).split(".")[0] in ("Afkak", "AfkakProofs", "AfkakProps", "Driver"):
+                todo.append(mm.group(1))
+    return sorted(seen)
+
+
+def grep_forbidden(roots):
+    """Forbidden tokens in every project file the property's theorems and drivers depend on
+    (another package's work in progress cannot break this property's check)."""
     hits = []
-    for root in ("Afkak", "AfkakProofs", "AfkakProps", "Driver"):
-        for dp, _, fns in os.walk(os.path.join(LEAN, root)):
-            for fn in fns:
-                if fn.endswith(".lean"):
-                    p = os.path.join(dp, fn)
-                    for m in FORBIDDEN.finditer(strip_comments(open(p).read())):
-                        hits.append("%s: %s" % (os.path.relpath(p, LEAN), m.group(0).strip()))
+    for m in import_closure(roots):
+        p = os.path.join(LEAN, *m.split(".")) + ".lean"
+        for mt in FORBIDDEN.finditer(strip_comments(open(p).read())):
+            hits.append("%s: %s" % (os.path.relpath(p, LEAN), mt.group(0).strip()))
     return hits
 
 
@@ -134,6 +150,13 @@ def run_model(component, lines, timeout=1200):
     if len(out) != len(lines):
         raise Undecided("model driver answered %d of %d requests" % (len(out), len(lines)))
     return out
+
+
+def exe_root(component):
+    """model_<component> has root Driver.<Root> (lakefile.toml)."""
+    txt = open(os.path.join(LEAN, "lakefile.toml")).read()
+    m = re.search(r'name = "model_%s"\s*\nroot = "Driver\.(\w+)"' % re.escape(component), txt)
+    return m.group(1) if m else component.capitalize()
 
 
 def load_known_findings():
@@ -292,7 +315,7 @@ def _run(ctx, a):
                 ctx.proof_broken = (ctx.proof_broken or "") + " leanchecker rejected AfkakProps.%s: %s" % (pid, out_lc[-800:])
     elif ctx.proof_broken is None:
         ctx.proof_broken = "proof obligations no longer build: " + "; ".join(failing_theorems(out_props, pid)) + "\n" + out_props[-1500:]
-    forb = grep_forbidden()
+    forb = grep_forbidden(["AfkakProps." + pid] + ["Driver." + exe_root(c) for c in mod.COMPONENTS])
     if forb:
         ctx.proof_broken = (ctx.proof_broken or "") + " forbidden tokens: %s" % forb
         discharged = 0
